@@ -594,6 +594,7 @@ func main() {
 	}
 	if want("gen") {
 		linkedModulesStage()
+		lebIndexStage()
 	}
 	rep.Write(orc)
 }
